@@ -1,6 +1,6 @@
 (* C04 — pinned property theorems. This file contains statements, `exact`, Print Assumptions and
    non-vacuity Examples only. The pins in tools/pins/C04.v re-check the statements.
-   The model (Model.v) follows src/substream/mod.rs after the `fix:` commits F-C04a..g. *)
+   The model (Model.v) follows src/substream/mod.rs after the `fix:` commits F-C04a..f. *)
 From Coq Require Import List NArith Bool.
 From V.gen Require Consts.
 From V.C04 Require Import Model Proofs.
@@ -114,38 +114,51 @@ Theorem C04_send_framed_complete :
 Proof. exact send_framed_spec. Qed.
 Print Assumptions C04_send_framed_complete.
 
-(* Sink::poll_close: a history ending in a poll_close that reports completion has everything
-   with the carrier, nothing queued, and the carrier shut down (after the last byte). *)
-Theorem C04_close_flushes :
-  forall (bp : N) (c : codec) (script : list wev) (ops : list op) rs r s',
-  run_ops bp c (init_sys script) (ops ++ [OClose]) = (rs ++ [r], s') ->
-  Forall2 good ops rs -> fst r = WOk ->
+(* Closing. Sink::poll_close is poll_shutdown of the carrier and Substream::close(self) is its
+   shutdown: a close call hands no byte to the carrier and does not touch the queue (frames that
+   were only start_send'ed are not written by it — callers flush first); the carrier has completed
+   a shutdown exactly when poll_close reports Ok. *)
+Theorem C04_close_sends_nothing :
+  forall (script : list wev) (w : wstate) (sent0 : list N),
+  (forall r w' sent' script' sh,
+     poll_close script w sent0 = (r, w', sent', script', sh) ->
+     w' = w /\ sent' = sent0 /\ (r = WOk <-> sh = true)) /\
+  (forall r np w' sent' script' sh,
+     close_all script w sent0 = (r, np, w', sent', script', sh) ->
+     w' = w /\ sent' = sent0 /\ (r = WOk -> Forall clean_ev script -> sh = true)).
+Proof. intros; split; intros; [eapply poll_close_spec|eapply close_all_spec]; eassumption. Qed.
+Print Assumptions C04_close_sends_nothing.
+
+(* A history whose last flush reported completion, then a poll_close that reports completion:
+   everything handed over is with the carrier, nothing is queued, the carrier is shut down
+   (after the last byte). *)
+Theorem C04_close_after_flush_complete :
+  forall (bp : N) (c : codec) (script : list wev) (ops : list op) rs rf rc s',
+  run_ops bp c (init_sys script) (ops ++ [OFlush; OClose]) = (rs ++ [rf; rc], s') ->
+  Forall2 good ops rs -> fst rf = WOk -> fst rc = WOk ->
   sent s' = wire_of c (accepted c ops) /\ qbytes (ws s') = [] /\ shut s' = true.
-Proof. exact hist_close_flushes. Qed.
-Print Assumptions C04_close_flushes.
+Proof. exact hist_close_after_flush. Qed.
+Print Assumptions C04_close_after_flush_complete.
 
-(* one poll_close call: conservation; the carrier is shut down only when nothing is queued *)
-Theorem C04_poll_close_spec :
-  forall (script : list wev) (w : wstate) (sent0 : list N) r w' sent' script' sh,
-  poll_close script w sent0 = (r, w', sent', script', sh) ->
-  pbytes w = lenN (qbytes w) ->
-  pbytes w' = lenN (qbytes w') /\ sent' ++ qbytes w' = sent0 ++ qbytes w /\
-  (r = WOk -> qbytes w' = [] /\ frames w' = [] /\ curf w' = None /\ sh = true) /\
-  (sh = true -> r = WOk).
-Proof. exact poll_close_spec. Qed.
-Print Assumptions C04_poll_close_spec.
-
-(* Substream::close(self) ignores errors; when it completes over a carrier that never failed,
-   everything handed over went out before the shutdown. *)
-Theorem C04_close_all_flushes :
-  forall (bp : N) (c : codec) (script : list wev) (ops : list op) rs s1 np w' sent' script' sh,
-  run_ops bp c (init_sys script) ops = (rs, s1) ->
-  Forall2 good ops rs ->
+(* The same for Substream::close(self), which ignores errors: over a carrier that does not fail. *)
+Theorem C04_close_all_after_flush_complete :
+  forall (bp : N) (c : codec) (script : list wev) (ops : list op) rs rf s1 np w' sent' script' sh,
+  run_ops bp c (init_sys script) (ops ++ [OFlush]) = (rs ++ [rf], s1) ->
+  Forall2 good ops rs -> fst rf = WOk ->
   close_all (wscript s1) (ws s1) (sent s1) = (WOk, np, w', sent', script', sh) ->
   Forall clean_ev (wscript s1) ->
   sent' = wire_of c (accepted c ops) /\ qbytes w' = [] /\ sh = true.
-Proof. exact hist_close_all_flushes. Qed.
-Print Assumptions C04_close_all_flushes.
+Proof. exact hist_close_all_after_flush. Qed.
+Print Assumptions C04_close_all_after_flush_complete.
+
+(* Observation (not a defect of the property: C04 speaks about sends and flushes reported
+   complete): a message that was start_send'ed but never flushed is dropped by close — the close
+   succeeds, the carrier is shut down, nothing was sent. *)
+Example C04_close_drops_unflushed :
+  let c := Varint None in
+  let '(rs, s') := run_ops 65536 c (init_sys (repeat (WChunk 100) 5)) [OSend (repeat 9 10); OClose] in
+  map fst rs = [WOk; WOk] /\ shut s' = true /\ sent s' = [] /\ pbytes (ws s') = 11.
+Proof. vm_compute. repeat split; reflexivity. Qed.
 
 (* Backpressure: poll_ready answers Ready(Ok) only with fewer than BACKPRESSURE_BOUNDARY bytes
    queued, so the queue never exceeds the boundary by more than one frame. *)
@@ -264,11 +277,11 @@ Proof. vm_compute. repeat split; reflexivity. Qed.
 
 (* mixed paths: a Sink frame is half written (carrier stalls after 3 bytes), then send_framed is
    called: it first completes the queued frame, then writes its own; a write error in between is
-   reported and nothing is lost; close flushes the last queued message *)
+   reported and nothing is lost; the last message is flushed, then the substream is closed *)
 Example C04_nonvacuous_mixed :
   let c := Varint None in
   let a := repeat 9 50 in let b := repeat 20 4 in let d := repeat 30 5 in
-  let ops := [OSend a; OFlush; OFramed b; OSend d; OFlush; OClose; OClose] in
+  let ops := [OSend a; OFlush; OFramed b; OSend d; OFlush; OFlush; OClose] in
   let wscript := [WChunk 3; WPending] ++ repeat (WChunk 100) 5 ++ [WErr] ++ repeat (WChunk 100) 6 in
   let '(rs, s') := run_ops 65536 c (init_sys wscript) ops in
   let '(outs, _, wire', _) := run_reader 50 c (init_r c) (sent s') (repeat (EvChunk 1000) 50) in
